@@ -1,0 +1,13 @@
+//go:build verif
+
+package middleware
+
+import "time"
+
+// VerifSetClock replaces the clock read by TimeFrameAllows and returns a function that restores it.
+// Verification hook: compiled only with the build tag "verif".
+func VerifSetClock(now func() time.Time) (restore func()) {
+	old := getCurrentTime
+	getCurrentTime = now
+	return func() { getCurrentTime = old }
+}
